@@ -370,7 +370,8 @@ DoReadonly(b) ==
 
 \* the cleaner removes committed records from the segments before the active one
 \* (which ones is Cleaner.tla's business: here any set `gone`) and drops emptied segments
-Cleanable == {r.off : r \in {log[i] : i \in 1..Len(log)}} \cap {o \in 0..hw : o < Last(segs)}
+\* (the newest committed record is the latest of its key among the committed ones: it stays)
+Cleanable == {r.off : r \in {log[i] : i \in 1..Len(log)}} \cap {o \in 0..hw - 1 : o < Last(segs)}
 DoClean(gone) ==
   /\ gone \subseteq Cleanable
   /\ log' = SelectSeq(log, LAMBDA r : r.off \notin gone)
